@@ -72,3 +72,22 @@ CASES += [
     {"name": "reorganisation-energy getter counts baths from one", "kind": "mutant", "rule": "C16-G", "edits": [
         (SBI, "            return self.CC.get_reorganization_energy(i,j)", "            return self.CC.get_reorganization_energy(i-1,j-1)", 1)]},
 ]
+
+CASES += [
+    m("reorganisation energies read in the caller's units (the repaired defect)", "C16-H",
+      "        with energy_units(\"int\"):\n            for ii in range(self.nbath):\n                self.lam[ii] = self.sbi.get_reorganization_energy(ii)",
+      "        if True:\n            for ii in range(self.nbath):\n                self.lam[ii] = self.sbi.get_reorganization_energy(ii)"),
+    m("right-hand side reads the Hamiltonian in the caller's units (the repaired defect)", "C16-H",
+      "        with energy_units(\"int\"):\n            if self.hy.ham.has_rwa:\n                HH = self.hy.ham.data  - self.HOmega",
+      "        if True:\n            if self.hy.ham.has_rwa:\n                HH = self.hy.ham.data  - self.HOmega"),
+    m("frame energies taken from the units-managed data in the constructor", "C16-H",
+      "                HOmega[ii,ii] = self.hy.ham.rwa_energies[ii]", "                HOmega[ii,ii] = HH[ii,ii]"),
+    t("internal-units block around the whole constructor loop pair",
+      "        self.lam = numpy.zeros(self.nbath, dtype=REAL)\n        # the hierarchy works with internal units, whatever units are\n        # current for the caller\n        with energy_units(\"int\"):\n            for ii in range(self.nbath):\n                self.lam[ii] = self.sbi.get_reorganization_energy(ii)",
+      "        self.lam = numpy.zeros(self.nbath, dtype=REAL)\n        with energy_units(\"int\"):\n            lam_int = [self.sbi.get_reorganization_energy(ii) for ii in range(self.nbath)]\n        for ii in range(self.nbath):\n            self.lam[ii] = lam_int[ii]"),
+    {"name": "Hamiltonian read moved into a private helper called under internal units", "kind": "twin", "edits": [
+        (H, "        with energy_units(\"int\"):\n            if self.hy.ham.has_rwa:\n                HH = self.hy.ham.data  - self.HOmega\n            else:\n                HH = self.hy.ham.data\n",
+         "        with energy_units(\"int\"):\n            HH = self._hamiltonian_matrix()\n", 1),
+        (H, "    def _ado_self_rhs(self, ado1, dt, slevel=0):",
+         "    def _hamiltonian_matrix(self):\n        if self.hy.ham.has_rwa:\n            return self.hy.ham.data - self.HOmega\n        return self.hy.ham.data\n\n    def _ado_self_rhs(self, ado1, dt, slevel=0):", 1)]},
+]
